@@ -260,34 +260,7 @@ def run(prog, ctx):
             count_writers.add(f.id)
     n_w = 0
     for f in [x for x in prog.fns.values() if not x.promoted and x.owner == B]:
-        muts = set()
-
-        def on_bits(pl, alias):
-            return (not isinstance(pl, int)) and ((pl[0] == 1 and any(p[0] == "." and p[2] == "bit_array" for p in pl[1])) or (pl[0] in alias and any(p[0] == "*" for p in pl[1])))
-        alias = set()       # locals holding a copy of the Box pointer of self.bit_array
-        changed = True
-        while changed:
-            changed = False
-            for b in f.blocks:
-                for st in b.stmts:
-                    if st[0] != "=" or not isinstance(st[1], int) or st[1] in alias or st[2][0] not in ("use", "cast"):
-                        continue
-                    op = st[2][1] if st[2][0] == "use" else st[2][2]
-                    if op[0] not in ("c", "m"):
-                        continue
-                    pl = op[1]
-                    base = pl if isinstance(pl, int) else pl[0]
-                    if on_bits(pl, ()) or base in alias:
-                        alias.add(st[1])
-                        changed = True
-        for b in f.blocks:
-            if b.cleanup:
-                continue
-            for st in b.stmts:
-                if st[0] == "=" and st[2][0] == "ref" and st[2][1] == "mut" and on_bits(st[2][2], alias):
-                    muts.add(b.idx)
-                if st[0] == "=" and on_bits(st[1], alias):
-                    muts.add(b.idx)
+        muts = C.buffer_mutations(f, "bit_array")
         if not muts or f.argc < 1 or not f.local_ty(1).startswith("&mut"):
             continue
         sf = Sym(prog, f, ifconv=False)
